@@ -17,7 +17,7 @@ RULE = ('enumeration of pipeline shape {buffer, parmap thread/process/async-func
         'AsyncStream.buffer/parmap, SyncIter, AsyncIter, IterableQueue source} x size {1,2,3} x stop kind {exhaust, break, close, del+gc} x stop '
         'position x failure site {none, source, map, parmap func, preprocessor} x failure kind {Exception, StopRequested} x failure position, '
         'each run under the schedule fuzzer in the thorough tier and for a seeded half in the quick tier; non-trivial = the case has an early '
-        'stop or a failure; distinct = distinct case tuples')
+        'stop or a failure; distinct = distinct case tuples; adapters around pipelines that own threads (synciter(abuffer), synciter(aparmap), asynciter(buffer)); consumer/source stalls of about a polling interval (0.1 s, 1 s) before the stop or the failure')
 ASSUMPTIONS = ['"bounded time" = 10 s (>= 200x the typical duration) AND three identical stack samples 1 s apart (DESIGN 3.1)',
                'leak census polls up to 5 s; stdlib QueueFeederThread daemons are reported but are not a leak verdict']
 CASE_TIMEOUT = 90
